@@ -22,6 +22,8 @@ type Module struct {
 	// imports - so here we insert all exportable values to this map after first scan
 	// note: all export values are constants.
 	exportValues ElementMap
+	// loaded - the module body has been executed completely (imported modules only)
+	loaded bool
 }
 
 type LibNameInfo struct {
@@ -70,6 +72,15 @@ func (m *Module) GetExportValue(name string) (Element, error) {
 	} else {
 		return nil, zerr.NameNotDefined(name)
 	}
+}
+
+// SetLoaded - mark that the module body has finished executing
+func (m *Module) SetLoaded() {
+	m.loaded = true
+}
+
+func (m *Module) IsLoaded() bool {
+	return m.loaded
 }
 
 func (m *Module) GetProgram() *syntax.Program {
